@@ -178,6 +178,19 @@ class Path:
         self.extra = extra or {}
 
 
+
+def _model_call(fn, args, kwargs, what=None):
+    """call a library / method MODEL.  A signature mismatch (a keyword or arity the model does not know, e.g. astype(.., copy=False))
+    says the model is incomplete, not that the program is wrong: it is `Unsupported` (undecided), never a crash of the checker and
+    never a TypeError attributed to the program.  Only a mismatch raised by this very call is caught (no frame deeper than fn)."""
+    try:
+        return fn(*args, **kwargs)
+    except TypeError as e:
+        tb = e.__traceback__
+        if tb is not None and tb.tb_next is None and ("argument" in str(e)):
+            raise Unsupported("model of %s does not accept this call: %s" % (what or getattr(fn, "__name__", "callable"), e))
+        raise
+
 class Interp:
     def __init__(self, program, dom, lib, stubs=None, max_paths=400, check_index=True):
         self.program = program
@@ -383,7 +396,7 @@ class Interp:
                 return st(self, *args, **kwargs)
             raise Unsupported("call of the external routine %s (no contract)" % fn.tag)
         if callable(fn):
-            return fn(*args, **kwargs)
+            return _model_call(fn, args, kwargs)
         raise Unsupported("call of %r" % (fn,))
 
     def call_lib(self, path, args, kwargs):
@@ -393,7 +406,7 @@ class Interp:
         if f is None:
             raise Unsupported("library function %s has no contract in the table" % path)
         self.lib.used.add(path)
-        return f(self, *args, **kwargs)
+        return _model_call(f, (self,) + tuple(args), kwargs, path)
 
     def call_function(self, fref, args, kwargs):
         info = fref.info
